@@ -58,8 +58,8 @@ def main():
         res["suite_passes_with_change"] = rc == 0
         if rc != 0: res["suite_output"] = out[-1500:]
         shutil.copy(demo, dest)
-        rc, out = sh(f"go test -vet=off -count=1 -timeout 120s -run . ./{ddir}/ 2>&1 | tail -40", "/repo")
-        rc2, out2 = sh(f"go test -vet=off -count=1 -timeout 120s ./{ddir}/", "/repo")
+        race = "-race " if meta.get("demo_needs_race_flag") else ""
+        rc2, out2 = sh(f"go test {race}-vet=off -count=1 -timeout 300s ./{ddir}/", "/repo")
         res["demo_fails_with_change"] = rc2 != 0
         os.remove(dest)
         res["checks"] = {}
@@ -73,7 +73,8 @@ def main():
         sh("git clean -fdq", "/repo")
     if res.get("applies"):
         shutil.copy(demo, dest)
-        rc, out = sh(f"go test -vet=off -count=1 -timeout 120s ./{ddir}/", "/repo")
+        race = "-race " if meta.get("demo_needs_race_flag") else ""
+        rc, out = sh(f"go test {race}-vet=off -count=1 -timeout 300s ./{ddir}/", "/repo")
         res["demo_passes_without_change"] = rc == 0
         if rc != 0: res["demo_clean_output"] = out[-800:]
         os.remove(dest)
